@@ -24,6 +24,8 @@ def guards(run, fx):
     run.selftest("guard/flag-false/ok", has("guard_ok"), True)
     run.selftest("guard/flag-false/early-return-spelling", has("guard_ok_early_return"), True)
     run.selftest("guard/flag-false/dropped", has("guard_bad_dropped"), False)
+    run.selftest("guard/in-caller-of-private-helper/ok", has("helper_act"), True)
+    run.selftest("guard/in-caller-of-private-helper/one-caller-lacks-it", has("helper_act2"), False)
     b = fx.bodies[F + "guard_ok_via_bool_local"]
     ats = G.guard_atoms(b, _call_bb(b, "::act"), fx)
     run.selftest("guard/bool-local-with-computed-arm", any(a[0] == "is_some" and a[2] is False for a in ats) and any(a[0] == "is_some" and a[2] is True and K.mentions_call(a[1][0], "first") for a in ats), True)
